@@ -27,17 +27,33 @@ RULE = (
     "resubmission); distinct = distinct (backend, step class, canonical event shape)."
 )
 ASSUMPTIONS = [
+    "end-to-end shards: a real gunicorn/uvicorn server process tree started from the tree under test (vf/e2e_launch.py: the repository's run_with_gunicorn / run_with_uvicorn; the SQL schema is made with the repository's metadata.create_all because its alembic env.py does not run with the installed SQLAlchemy; the notifier's fixed TCP port 6000 is replaced by a free port), spoken to over loopback TCP with the websockets client; real time, real sleeps",
     "LMDB is judged only after its writer thread is idle (enqueue/dequeue counters equal)",
     "must-accept is only demanded for authentic events with 1 <= created_at < 2^31 and 0 <= kind <= 65535, default validators, auth off",
     "LMDB backend over /verif/shim; SQL = SQLite",
 ]
 MIN_NONTRIVIAL = {"quick": 150, "thorough": 400}
-REQUIRED_COUNTERS = ["clause.ok_true_retrievable", "clause.ok_false_no_trace", "clause.must_accept", "clause.resubmission", "clause.one_ok", "clause.ok_true_retrievable_after_restart"]
+REQUIRED_COUNTERS = ["e2e.e2e_ok_frames_checked", "e2e.e2e_restart_lookups", "clause.ok_true_retrievable", "clause.ok_false_no_trace", "clause.must_accept", "clause.resubmission", "clause.one_ok", "clause.ok_true_retrievable_after_restart"]
 SHARD_TIMEOUT = {"quick": 500, "thorough": 3000}
 EXTREMES = [-1, 0, 1, 2 ** 31 - 1, 2 ** 31, 2 ** 32 - 1, 2 ** 32, 2 ** 63 - 1, 2 ** 63]
 
 
 def plan(tier, seed):
+    return _plan(tier, seed) + e2e_plan(tier, seed)
+
+
+def e2e_plan(tier, seed):
+    """shards on a REAL server process tree (vf/e2e.py)"""
+    out = []
+    for i in range(1 if tier == "quick" else 4):
+        for b in ("sql", "lmdb"):
+            out.append({"mode": "e2e", "e2e": "wire", "backend": b, "seed": seed * 7919 + 200 + i, "nevents": 50})
+            out.append({"mode": "e2e", "e2e": "restart", "backend": b, "seed": seed * 7919 + i, "nevents": 120 if tier == "quick" else 400, "during_burst": False})
+            out.append({"mode": "e2e", "e2e": "restart", "backend": b, "seed": seed * 7919 + 50 + i, "nevents": 200 if tier == "quick" else 600, "during_burst": True})
+    return out
+
+
+def _plan(tier, seed):
     n, seqs = (6, 3) if tier == "quick" else (32, 30)
     out = [{"backend": b, "case_seed": seed * 7919 + i, "seqs": seqs} for b in ("sql", "lmdb") for i in range(n)]
     # systematic sweep of indexed tag value lengths around the LMDB key limit, for every indexed name
@@ -371,6 +387,10 @@ async def run_sequence(backend, steps, counters, seq_seed):
 
 
 def run_shard(spec):
+    if spec.get("mode") == "e2e":
+        from .. import e2e_cases
+
+        return e2e_cases.run_e2e_shard(ID, spec)
     counters = {}
     viols, nontrivial, samples = [], [], []
     r = random.Random(spec["case_seed"])
@@ -407,6 +427,10 @@ def run_shard(spec):
 
 
 def replay(rp, spec):
+    if rp.get("mode") == "e2e":
+        from .. import e2e_cases
+
+        return e2e_cases.run_e2e_shard(ID, rp)
     counters = {}
     if rp.get("mode") == "restart":
         v, nt = R.run(run_restart, rp["backend"], counters, rp["seed"])
